@@ -187,4 +187,10 @@ theorem local_names_follow_their_locals (m o : ModuleM) (h : roundTripModule m =
                   · cases hr
         · cases h
 
+theorem lastName_append (a b : List (Nat × String)) (i : Nat) :
+    lastName (a ++ b) i = (lastName b i).or (lastName a i) := by
+  unfold lastName
+  rw [List.reverse_append, List.find?_append]
+  cases h : b.reverse.find? (·.1 = i) <;> simp
+
 end Walrus
